@@ -32,7 +32,7 @@ fn input_strategy() -> impl Strategy<Value = InputSpec> {
         .prop_map(|(lg_k, ops, roundtrip)| InputSpec { lg_k, ops, roundtrip })
 }
 
-fn case_strategy() -> impl Strategy<Value = Case> {
+pub fn case_strategy() -> impl Strategy<Value = Case> {
     (
         4u8..=12,
         c05::seed_strategy(),
@@ -135,7 +135,7 @@ pub fn check_result(u: &CpcUnion, lg: u8, rows: &[u64], ctx: &str) -> Result<Cpc
     Ok(r)
 }
 
-fn run_case(c: &Case, info: &mut CaseInfo) -> Result<(), Fail> {
+pub fn run_case(c: &Case, info: &mut CaseInfo) -> Result<(), Fail> {
     let mut built = vec![];
     for i in &c.inputs {
         built.push(build(i, c.seed)?);
